@@ -255,7 +255,7 @@ Section Loops.
       let nqr := q_next_time (dv_q st) in
       (* step: 0 reaction, 1 volume step, 2 queue slot, 3 nothing (only the move to the time point) *)
       let '(time', nv, step, rs) :=
-        if fltb A proposed (dv_next_vol st) && fltb A proposed nqr then (proposed, dv_next_vol st, (if feqb A Lambda (f0 A) then 3 else 0)%nat, rs)
+        if fltb A proposed (dv_next_vol st) && fltb A proposed nqr then (proposed, dv_next_vol st, (if feqb A Lambda (f0 A) then 3 else 0)%nat, false)   (* no dt step has elapsed: rule_step is cleared also for the bare move to a time point *)
         else if fltb A (dv_next_vol st) nqr then (dv_next_vol st, fadd A (dv_next_vol st) (sm_dt s), 1%nat, true)
         else (nqr, dv_next_vol st, 2%nat, false) in
       let '(rows, rem) := record (dv_todo st) time' x1 in
